@@ -315,9 +315,16 @@ def onecopy(ctx: Any) -> List[Ob]:
     under itself and drops an equal key first, so each index holds exactly one object per identity and a later copy
     that differs only in TTL, creation time or flush bit replaces the earlier one in every index (the same
     obligations as C05.KV, here for the clause `the same record - for the cache`)."""
-    from .c05 import kv_obligations
+    from .c05 import kv_obligations, lookups as _lookups
 
-    return kv_obligations(ctx, 'C20.ONECOPY')
+    obs = kv_obligations(ctx, 'C20.ONECOPY')
+    # ... and the store it is written into is the index bucket of its key -- the one every lookup reads (a record put into a
+    # dictionary that is no longer, or not yet, linked from the index is invisible to the record it should have replaced)
+    for o in _lookups.fn(ctx):
+        if 'is stored in' in o.statement:
+            o.rule = 'C20.ONECOPY'
+            obs.append(o)
+    return obs
 
 
 RAW_CASE_EXEMPT = {
